@@ -1773,6 +1773,9 @@ func RunFrame(frame *py.Frame) (res py.Object, err error) {
 	var vm = Vm{
 		frame:   frame,
 		context: frame.Context,
+		// restore the exception being handled when a generator
+		// frame yielded from inside an except handler
+		exc: frame.Exc,
 	}
 
 	// FIXME need to do this to save the old exeption when we
@@ -1953,6 +1956,8 @@ func RunFrame(frame *py.Frame) (res py.Object, err error) {
 	}
 
 fast_yield:
+	// put aside the exception being handled for when the frame is resumed
+	frame.Exc = vm.exc
 	// FIXME
 	// if (co->co_flags & CO_GENERATOR) {
 	//     /* The purpose of this block is to put aside the generator's exception
